@@ -275,16 +275,30 @@ def run_world(build, until, chooser, lazy=True, cache=True, max_loop_iterations=
                 ctl.emit(("event-ignored",))
         sink_id = _lg.add(sink, level="WARNING")
         ctl.active = True
+        import signal
+
+        class _Watchdog(BaseException):
+            pass
+
+        def _on_alarm(signum, frame):
+            raise _Watchdog()
+        old_handler = signal.signal(signal.SIGALRM, _on_alarm)
+        signal.alarm(30)        # a scenario takes milliseconds; the closures before the first step can loop for D7-class scenarios
         try:
             with warnings.catch_warnings():
                 warnings.simplefilter("ignore")
                 world.run(until=until, print_progress=False, lazy_stepping=lazy, rt_factor=rt_factor, rt_strict=rt_strict)
             outcome = "finished"
+        except _Watchdog:
+            outcome = "failed Hang run() did not return within 30 s"
         except asyncio.CancelledError:
             outcome = "deadlock"
         except BaseException as e:  # noqa: BLE001
             outcome = "failed " + classify_exception(e)
             ctl.exception = e
+        finally:
+            signal.alarm(0)
+            signal.signal(signal.SIGALRM, old_handler)
         ctl.active = False
         ctl.flush()
         return outcome, ctl
